@@ -70,5 +70,16 @@ class LogsumexpModel(Contract):
         return R(lse_of(I, args[0]))
 
 
+class ToNumpyModel(Contract):
+    qual = "utils:to_numpy"
+    doc = "value-preserving conversion to a NumPy array on the CPU"
+
+    def model(self, I, info, bound, args, kwargs, node):
+        a = args[0]
+        if isinstance(a, Arr):
+            return Arr(a.n, a.elem, a.at, a.key, dict(a.meta, ns="numpy"))
+        return a
+
+
 ALL = [LogWeightsModel, UnnormalizedLogWeightsModel, EffectiveSampleSizeModel, LogEvidenceRatioModel,
        LogEvidenceRatioVarianceModel, LogsumexpModel]
